@@ -525,7 +525,19 @@ func ruleH3(c *Ctx) {
 			case kRight && fromNew:
 				bad = fmt.Sprintf("inserts elements into a fresh empty result in the order of the RIGHT operand (%s)", c.P.Pos(call.Pos()))
 			case !kRight && fromNew:
-				if good == "" {
+				// the key must come from a traversal of the receiver only
+				foreign := ""
+				for _, kb := range traceValue(kv).bases {
+					if kb.v != ssa.Value(fn.Params[0]) {
+						foreign = kb.v.Name()
+						if kb.v.Pos().IsValid() {
+							foreign = c.P.Pos(kb.v.Pos())
+						}
+					}
+				}
+				if foreign != "" {
+					bad = fmt.Sprintf("fills a fresh result with keys that may be taken from a traversal of something other than the receiver (%s), i.e. not necessarily in the left operand's order (%s)", foreign, c.P.Pos(call.Pos()))
+				} else if good == "" {
 					good = "fresh result filled in the left operand's order"
 				}
 			}
